@@ -145,4 +145,18 @@ def _ext_concrete(st, d0, d1, w0, w1, swap):
     # a second external module WITHOUT a domain of its own; and, when `swap`, a package exported under a domain
     F = h.ExternalModule(name="F", port_list=[h.Port(name="q", width=w0)], paramtype=dict)
     m.v = F({})(q=a)
-    return _rt(m, domain="mylib" if swap else None)
+    if not _rt(m, domain="mylib" if swap else None):
+        return False
+    # ... and a later import, in the same process, of ANOTHER package declaring `dom.E` differently (ports reversed, other
+    # widths, directions and spice type): nothing of the first import may leak into it
+    ports2 = [h.Signal(name="p1", width=w0, vis=h.signal.Visibility.PORT, direction=dirs[(d0 + 1) % 4]),
+              h.Signal(name="p0", width=w1, vis=h.signal.Visibility.PORT, direction=dirs[(d1 + 2) % 4])]
+    if not swap:
+        ports2.reverse()
+    E2 = h.ExternalModule(name="E", domain="dom", desc="the same name, another device", port_list=ports2, paramtype=dict,
+                          spicetype=list(SpiceType)[(st + 3) % 14])
+    m2 = h.Module(name="Top")
+    a2 = m2.add(h.Signal(name="a", width=w0))
+    b2 = m2.add(h.Signal(name="b", width=w1))
+    m2.u = E2({})(p1=a2, p0=b2)
+    return _rt(m2)
